@@ -95,6 +95,7 @@ impl grenad::MergeFunction for MF {
             if let Some(f) = c.fault {
                 if f.kind == Kind::Merge && f.k == n && !c.fired {
                     c.fired = true;
+                    c.fired_total = c.counts.iter().sum();
                     return Err(MergeErr(crate::ioinstr::MARKER.to_string()));
                 }
             }
